@@ -8,7 +8,7 @@ rm -rf $W $W.out; mkdir -p /tmp/tryseed $W.out
 git -C /repo worktree prune
 git -C /repo worktree add -q --detach $W HEAD || exit 2
 git -C $W apply $P || { git -C /repo worktree remove --force $W; exit 2; }
-VERIF_REPO=$W VERIF_OUT=$W.out /verif/bin/check $ID --tier $TIER 2>&1 | grep -v "^WARNING conda" | tail -${4:-6} | cut -c1-600
+VERIF_REPO=$W VERIF_OUT=$W.out /verif/bin/check $ID --tier $TIER ${VERIF_ONLY:+--only $VERIF_ONLY} 2>&1 | grep -v "^WARNING conda" | tail -${4:-6} | cut -c1-600
 echo "exit=${PIPESTATUS[0]}"
 git -C /repo worktree remove --force $W
 rm -rf $W.out
